@@ -368,7 +368,95 @@ CYC = {
 EMPTYNS_CFG = 'default = "en"\nlocales = ["en", "fr"]\nnamespaces = []\n'
 
 
+# ---------------------------------------------------------------- edge shapes (legal, rarely written)
+EDGE_CFG = '''default = "en"
+locales = ["fr", "fr-CA", "zh-Hant-TW"]
+inherits = { fr-CA = "fr" }
+translations-path = "i18n/{locale}.json"
+'''
+EDGE = {
+    "en": {
+        # an ordinal plural whose own name ends in `_ordinal`, with foreign keys inside its forms
+        "rank_ordinal_ordinal_one": "$t(word_place) {{ count }}st",
+        "rank_ordinal_ordinal_two": "$t(word_place) {{ count }}nd",
+        "rank_ordinal_ordinal_few": "{{ count }}rd $t(word_place)",
+        "rank_ordinal_ordinal_other": "{{ count }}th $t(word_place)",
+        "word_place": "place",
+        # keys that sort between a plural's base name and its forms
+        "item_label": "Items:",
+        "item_one": "{{ count }} item",
+        "item_other": "{{ count }} items",
+        "item_total": "Total",
+        "itemise": "itemise",
+        # foreign keys into plurals and ranges with literal counts of every shape
+        "fk_float": "$t(item, {\"count\": 2.5})",
+        "fk_float_whole": "$t(item, {\"count\": 2.0})",
+        "fk_float_neg": "$t(item, {\"count\": -0.5})",
+        "fk_float_exp": "$t(item, {\"count\": 1e3})",
+        "fk_big": "$t(item, {\"count\": 18446744073709551615})",
+        "fk_ordinal": "$t(rank_ordinal, {\"count\": 2})",
+        "temp": ["f64", ["freezing", "..0.0"], ["mild {{ count }}", "0.0..=25.5"], ["hot"]],
+        "fk_range_float": "$t(temp, {\"count\": -3.25}) / $t(temp, {\"count\": 25.5}) / $t(temp, {\"count\": 99.5})",
+        "neg": ["i16", ["deep", "-32768..=-100"], ["shallow", "-99..0"], ["zero", 0], ["positive"]],
+        "fk_range_neg": "$t(neg, {\"count\": -32768}) $t(neg, {\"count\": -1})",
+        # keys that differ only by `-` / `_`
+        "dash-key": "with a dash",
+        "dash_key2": "with an underscore",
+        "a": {"b-c": {"d_e": "deep {{ x }}", "d-f": "$t(a.b-c.d_e, {\"x\": \"y\"})"}},
+        "only_numbers": {"n": 1, "b": True, "f": 2.5},
+        "escaped": "{{ \"literal\" }} braces? no: plain",
+        "comp_attr": "<a>link</a> and <b>bold {{ x }}</b>",
+    },
+    "fr": {
+        "rank_ordinal_ordinal_one": "$t(word_place) {{ count }}re",
+        "rank_ordinal_ordinal_other": "{{ count }}e $t(word_place)",
+        "word_place": "place",
+        "item_label": "Éléments :",
+        "item_one": "{{ count }} élément",
+        "item_other": "{{ count }} éléments",
+        "item_total": "Total",
+        "fk_float": "$t(item, {\"count\": 1.5})",
+        "fk_float_whole": "$t(item, {\"count\": 0.0})",
+        "temp": ["f64", ["gel", "..0.0"], ["doux {{ count }}", "0.0..=25.5"], ["chaud"]],
+        "a": {"b-c": {"d_e": "profond {{ x }}"}},
+        "only_numbers": {"n": 2, "b": False, "f": 3.5},
+    },
+    "fr-CA": {},
+    "zh-Hant-TW": {"word_place": "名", "item_other": "{{ count }} 個", "item_label": "項目："},
+}
+del EDGE["en"]["escaped"]
+
+EDGENS_CFG = '''default = "en"
+locales = ["en", "fr", "fr-CA"]
+namespaces = ["numbers", "texts", "side-bar"]
+inherits = { fr-CA = "fr" }
+translations-path = "i18n/{namespace}/{locale}.json"
+'''
+EDGENS = {
+    "en": {"numbers": {"answer": 42, "pi": 3.14, "flag": True, "nested": {"n": 1}},
+           "texts": {"hello": "Hello", "answer": "$t(numbers:answer) is the answer", "count_one": "one", "count_other": "{{ count }}"},
+           "side-bar": {"title": "Side bar", "entry": "Entry {{ n }}"}},
+    "fr": {"numbers": {"answer": 42, "pi": 3.14, "flag": False, "nested": {"n": 2}},
+           "texts": {"hello": "Bonjour", "count_one": "un", "count_other": "{{ count }}"},
+           "side-bar": {"title": "Barre latérale"}},
+    "fr-CA": {"numbers": {}, "texts": {}, "side-bar": {"entry": "Entrée {{ n }}"}},
+}
+
+
 def main():
+    import sys
+    only = set(sys.argv[1:])
+    real_project = project
+    def project_filtered(name, *a):
+        if not only or name in only:
+            real_project(name, *a)
+    globals()["project"] = project_filtered
+    project("edge", EDGE_CFG, "locales", EDGE)
+    files = {}
+    for loc, nss in EDGENS.items():
+        for ns, obj in nss.items():
+            files[f"{loc}/{ns}"] = obj
+    project("edgens", EDGENS_CFG, "locales", files)
     project("emptyns", EMPTYNS_CFG, "locales", {"en": {"unused": "never read"}, "fr": {"unused": "jamais lu"}})
     project("manyloc", MANY_CFG, "locales", {l: many_file(l) for l in MANY_LOCALES})
     project("cyclic", CYC_CFG, "locales", CYC)
